@@ -117,7 +117,16 @@ pub fn run(c: &mut Ctx) {
     d.set("what", Json::s("pure arithmetic sweep"));
     d.set("group_width", Json::i(GROUP_WIDTH));
     c.describe(d);
-    let sizes: Vec<usize> = (0..=64).chain([200, 4096, 1 << 20, isize::MAX as usize / 2 - 1, isize::MAX as usize / 2, isize::MAX as usize / 2 + 1]).collect();
+    let mut sizes: Vec<usize> = (0..=64).chain([200, 4096, 1 << 20, isize::MAX as usize / 2 - 1, isize::MAX as usize / 2, isize::MAX as usize / 2 + 1]).collect();
+    // element sizes whose product with a bucket count lands next to usize::MAX / isize::MAX (the padding and control-byte
+    // additions are the steps that can wrap there); 2^61 - 1 is the largest array type rustc accepts on this target
+    for bp in 2..=61u32 {
+        for base in [usize::MAX >> bp, (isize::MAX as usize) >> bp] {
+            sizes.extend_from_slice(&[base - 1, base, base + 1]);
+        }
+    }
+    sizes.sort();
+    sizes.dedup();
     // --- (a) capacity -> buckets --------------------------------------------------------------
     // small capacities x every element size (the minimum table size depends on the element size)
     for cap in 1..15usize {
